@@ -71,6 +71,7 @@ func runC02Loop(c *Ctx) {
 	p := c.P
 	c.Rule("C02-LOOP", "every loop on the validation path whose body can produce a clause (walker loops over fields, entries, elements, rule items, groups) leaves only through its header: no break, return, goto or panic in the body, so one failure never ends the walk", 9)
 	runShiftWidth(c, "C02-LOOP")
+	runCounterBalance(c, "C02-LOOP")
 	prod := clauseProducers(p)
 	// functions on the validation path, excluding what is only reachable through rule functions
 	inRule := map[*ssa.Function]bool{}
@@ -629,4 +630,118 @@ func runShiftWidth(c *Ctx, rule string) {
 	}
 	c.Sites += n
 	c.Check(len(bad) == 0, rule, "repo", "bit-index-width", token.NoPos, fmt.Sprintf("%d shifts by a non-constant count, each bounded below the width of the shifted value", n), uniqJoin(bad, 3))
+}
+
+// runCounterBalance: a counter kept in a field of the validator and stepped up on entry and down on exit
+// of a function (a nesting-depth guard, a pending-work count) must be balanced on EVERY path to a return:
+// an early return that skips the decrement leaks one level per visit, and after enough scalar elements
+// every later nested object is refused or skipped although it is not deep at all.
+func runCounterBalance(c *Ctx, rule string) {
+	p := c.P
+	var bad []string
+	n := 0
+	for _, fn := range p.Funcs {
+		if fn.Pkg == nil || !strings.HasPrefix(fn.Pkg.Pkg.Path(), ModPath) || fn.Blocks == nil || fn.Signature.Recv() == nil || len(fn.Params) == 0 {
+			continue
+		}
+		recv := ssa.Value(fn.Params[0])
+		type step struct {
+			field int
+			delta int
+		}
+		steps := map[ssa.Instruction]step{}
+		ups, downs := map[int]bool{}, map[int]bool{}
+		for _, b := range fn.Blocks {
+			for _, ins := range b.Instrs {
+				st, ok := ins.(*ssa.Store)
+				if !ok {
+					continue
+				}
+				fa, ok := st.Addr.(*ssa.FieldAddr)
+				if !ok || fa.X != recv {
+					continue
+				}
+				bo, ok := st.Val.(*ssa.BinOp)
+				if !ok || (bo.Op != token.ADD && bo.Op != token.SUB) {
+					continue
+				}
+				k, isK := constInt(bo.Y)
+				ld, isLd := bo.X.(*ssa.UnOp)
+				if !isK || !isLd || ld.Op != token.MUL || k <= 0 || k > 4 {
+					continue
+				}
+				fa2, ok := ld.X.(*ssa.FieldAddr)
+				if !ok || fa2.X != recv || fa2.Field != fa.Field {
+					continue
+				}
+				d := int(k)
+				if bo.Op == token.SUB {
+					d = -d
+					downs[fa.Field] = true
+				} else {
+					ups[fa.Field] = true
+				}
+				steps[ins] = step{fa.Field, d}
+			}
+		}
+		for f := range ups {
+			if !downs[f] {
+				continue
+			}
+			n++
+			// possible net changes at block entry
+			in := map[*ssa.BasicBlock]map[int]bool{fn.Blocks[0]: {0: true}}
+			work := []*ssa.BasicBlock{fn.Blocks[0]}
+			out := func(b *ssa.BasicBlock) map[int]bool {
+				cur := map[int]bool{}
+				for d := range in[b] {
+					cur[d] = true
+				}
+				for _, ins := range b.Instrs {
+					if s, ok := steps[ins]; ok && s.field == f {
+						nx := map[int]bool{}
+						for d := range cur {
+							if v := d + s.delta; v >= -6 && v <= 6 {
+								nx[v] = true
+							}
+						}
+						cur = nx
+					}
+				}
+				return cur
+			}
+			for steps2 := 0; len(work) > 0 && steps2 < 4000; steps2++ {
+				b := work[0]
+				work = work[1:]
+				o := out(b)
+				for _, s := range b.Succs {
+					if in[s] == nil {
+						in[s] = map[int]bool{}
+					}
+					grew := false
+					for d := range o {
+						if !in[s][d] {
+							in[s][d] = true
+							grew = true
+						}
+					}
+					if grew {
+						work = append(work, s)
+					}
+				}
+			}
+			st := namedOf(recv.Type()).Underlying().(*types.Struct)
+			for _, b := range fn.Blocks {
+				if ret, ok := b.Instrs[len(b.Instrs)-1].(*ssa.Return); ok && in[b] != nil {
+					for d := range out(b) {
+						if d != 0 {
+							bad = append(bad, fmt.Sprintf("%s: %s returns with the counter %s changed by %+d: it is stepped up on entry and down on the normal exit, but this return skips the decrement — every visit through it leaks one level, and after enough of them later nested objects are refused or skipped", p.Pos(ret.Pos()), fnName(fn), st.Field(f).Name(), d))
+						}
+					}
+				}
+			}
+		}
+	}
+	c.Sites += n
+	c.Check(len(bad) == 0, rule, "repo", "counter-balance", token.NoPos, fmt.Sprintf("%d entry/exit counters, each balanced on every path to a return", n), uniqJoin(bad, 3))
 }
